@@ -5,6 +5,9 @@
 //	GET /v2/<name>/tags/list
 //	GET /v2/<name>/referrers/<digest>
 //
+// plus a minimal read-only manifest endpoint (GET/HEAD /v2/<name>/manifests/<ref>
+// over the Manifests map), enough for the referrers tag schema,
+//
 // with explicit, recorded server-side choices (a "split oracle"): how long
 // each page is, what form the Link header takes, which extra parameters it
 // carries, whether artifactType filtering is applied and how it is announced,
@@ -27,6 +30,7 @@ package fakereg
 
 import (
 	"bytes"
+	"crypto/sha256"
 	"encoding/json"
 	"fmt"
 	"io"
@@ -85,12 +89,13 @@ type Decision struct {
 	RawBody    *string // replaces the body verbatim
 	CType      string  // replaces the Content-Type of a referrers response
 	ErrorCode  string  // error code of a non-200 body (default "UNKNOWN")
+	NoDigest   bool    // manifest endpoint: omit the Docker-Content-Digest header
 	NoProgress bool    // internal: set when RawLink is used (no ground truth for the target)
 }
 
 // Exchange is one logged request/response pair.
 type Exchange struct {
-	Kind     byte // 'T' tags, 'K' catalog, 'R' referrers
+	Kind     byte // 'T' tags, 'K' catalog, 'R' referrers, 'M' manifest
 	Repo     string
 	Path     string     // request path
 	Query    url.Values // request query as received
@@ -128,6 +133,12 @@ func (b *countingBody) Read(p []byte) (int, error) {
 }
 func (b *countingBody) Close() error { b.closed = true; return nil }
 
+// Manifest is a stored manifest.
+type Manifest struct {
+	MediaType string
+	Content   []byte
+}
+
 // Registry is the fake registry.  Not safe for concurrent use.
 type Registry struct {
 	Host      string
@@ -136,6 +147,7 @@ type Registry struct {
 	Tags      map[string][]Item // repository -> tags in the registry's order
 	Repos     []Item            // catalog in the registry's order
 	Referrers map[string][]Item // repository + "@" + subject digest -> referrers in the registry's order
+	Manifests map[string]Manifest // repository + "@" + tag or digest -> manifest
 	// Decide is the split oracle; x has Kind, Repo, Path and Query filled in.
 	Decide      func(x *Exchange) Decision
 	Log         []*Exchange
@@ -145,7 +157,7 @@ type Registry struct {
 
 // New returns an empty registry with a large cap and one-page answers.
 func New(host string) *Registry {
-	return &Registry{Host: host, Scheme: "http", Cap: 1 << 30, Tags: map[string][]Item{}, Referrers: map[string][]Item{},
+	return &Registry{Host: host, Scheme: "http", Cap: 1 << 30, Tags: map[string][]Item{}, Referrers: map[string][]Item{}, Manifests: map[string]Manifest{},
 		Decide: func(*Exchange) Decision { return Decision{M: 1 << 30} }, MaxRequests: 500}
 }
 
@@ -210,6 +222,8 @@ func (r *Registry) RoundTrip(req *http.Request) (*http.Response, error) {
 	x := &Exchange{Path: p, Query: req.URL.Query()}
 	var items []Item
 	switch {
+	case (req.Method == http.MethodGet || req.Method == http.MethodHead) && strings.HasPrefix(p, "/v2/") && strings.Contains(p, "/manifests/"):
+		return r.manifest(req, x), nil
 	case req.Method != http.MethodGet:
 	case p == "/v2/_catalog":
 		x.Kind, items = 'K', r.Repos
@@ -343,6 +357,36 @@ func (r *Registry) RoundTrip(req *http.Request) (*http.Response, error) {
 	x.body = &countingBody{r: bytes.NewReader(body)}
 	return &http.Response{Status: "200 OK", StatusCode: 200, Proto: "HTTP/1.1", ProtoMajor: 1, ProtoMinor: 1,
 		Header: h, Body: x.body, ContentLength: int64(len(body)), Request: req}, nil
+}
+
+// manifest serves GET/HEAD /v2/<name>/manifests/<ref>.
+func (r *Registry) manifest(req *http.Request, x *Exchange) *http.Response {
+	p := req.URL.Path
+	i := strings.LastIndex(p, "/manifests/")
+	x.Kind, x.Repo = 'M', p[len("/v2/"):i]
+	r.Log = append(r.Log, x)
+	d := r.Decide(x)
+	x.Dec = d
+	m, ok := r.Manifests[x.Repo+"@"+p[i+len("/manifests/"):]]
+	if !ok {
+		return r.fail(req, x, http.StatusNotFound, "MANIFEST_UNKNOWN")
+	}
+	if d.Status != 0 && d.Status != http.StatusOK {
+		return r.fail(req, x, d.Status, "UNKNOWN")
+	}
+	h := http.Header{}
+	h.Set("Content-Type", m.MediaType)
+	if !d.NoDigest {
+		h.Set("Docker-Content-Digest", "sha256:"+fmt.Sprintf("%x", sha256.Sum256(m.Content)))
+	}
+	body := m.Content
+	if req.Method == http.MethodHead {
+		body = nil
+	}
+	x.Status, x.JSONOK, x.DocLen, x.TotalLen = http.StatusOK, true, len(m.Content), len(m.Content)
+	x.body = &countingBody{r: bytes.NewReader(body)}
+	return &http.Response{Status: "200 OK", StatusCode: 200, Proto: "HTTP/1.1", ProtoMajor: 1, ProtoMinor: 1,
+		Header: h, Body: x.body, ContentLength: int64(len(m.Content)), Request: req}
 }
 
 func (r *Registry) render(u *url.URL, q []KV, d Decision) string {
